@@ -556,6 +556,27 @@ class Flow(object):
                         m = -int(b_.const_value())
                         if m & (m - 1) == 0:
                             return self.fdiv(a_, P.const(m)) * m
+            if opn == "BitAnd":
+                # x & (2^k - 1)  ==  x % 2^k  for every int x
+                for a_, b_ in ((l, r), (r, l)):
+                    if b_.is_const() and b_.const_value() > 0 and \
+                            b_.const_value().denominator == 1:
+                        m = int(b_.const_value()) + 1
+                        if m & (m - 1) == 0:
+                            return self.mod(a_, P.const(m))
+            if opn in ("BitOr", "BitXor"):
+                # a | b == a ^ b == a + b when 0 <= a < 2^k and every term
+                # of b is a multiple of 2^k (no bit in common)
+                for a_, b_ in ((l, r), (r, l)):
+                    rng = self._small_range(a_)
+                    if rng is None or not b_.t:
+                        continue
+                    k2 = 1
+                    while k2 < rng:
+                        k2 *= 2
+                    if all(c.denominator == 1 and int(c) % k2 == 0
+                           for c in b_.t.values()):
+                        return a_ + b_
             if opn in ("BitAnd", "BitOr", "BitXor"):
                 args = sorted([l, r], key=repr)
                 name = "%s(%r, %r)" % (opn.lower(), args[0], args[1])
@@ -736,6 +757,22 @@ class Flow(object):
         name = "fdiv(%r, %r)" % (l, r)
         return self._composite(name, [l, r], ("fdiv", l, r))
 
+    def _small_range(self, p):
+        """n when ``p`` is known to lie in 0 .. n-1: a constant, or a
+        remainder by a positive constant; else None."""
+        if p.is_const():
+            v = p.const_value()
+            return int(v) + 1 if v.denominator == 1 and v >= 0 else None
+        if len(p.t) == 1:
+            (m, c), = p.t.items()
+            if c == 1 and len(m) == 1:
+                info = self.atom_info.get(m[0])
+                if info and info[0] == "mod" and info[2].is_const() and \
+                        info[2].const_value() > 0 and \
+                        info[2].const_value().denominator == 1:
+                    return int(info[2].const_value())
+        return None
+
     def mod(self, l, r):
         P = Poly
         if r.is_const() and r.const_value() > 0:
@@ -860,6 +897,16 @@ class Flow(object):
                     out += self.cond_constraints(v, False, at)
                 return out
             return []
+        if (isinstance(cond, ast.Call) and isinstance(cond.func, ast.Name)
+                and cond.func.id == "len" and len(cond.args) == 1 and
+                not cond.keywords) or (
+                isinstance(cond, ast.BinOp) and isinstance(
+                    cond.op, (ast.Mod, ast.BitAnd, ast.Sub, ast.FloorDiv,
+                              ast.RShift))):
+            # the truth value of a number:  ``if len(x):``  is  len(x) != 0
+            zero = ast.Constant(value=0)
+            ast.copy_location(zero, cond)
+            return self._cmp(cond, ast.NotEq(), zero, polarity, at)
         if isinstance(cond, ast.Name) and depth_ok(self):
             # a boolean kept in a variable: ``ok = a < b and c; if ok:``
             # reads like the test itself while nothing it mentions changes
@@ -995,6 +1042,17 @@ class Flow(object):
                     q = self.fdiv(l, r)
                     ax += [le(l, q * d + A, "e = d*(e//d) + e%d"),
                            le(q * d + A, l, "e = d*(e//d) + e%d")]
+                    todo |= q.atoms()
+                elif r.atoms() and all(x in self.positive
+                                       for x in r.atoms()) and \
+                        r.is_linear() and len(r.t) == 1:
+                    # symbolic divisor assumed >= 1
+                    ax.append(le(0, A, "0 <= e%d"))
+                    ax.append(le(A, r - 1, "e%d <= d-1"))
+                    q = self.fdiv(l, r)
+                    ax += [le(l, q * r + A, "e = d*(e//d) + e%d"),
+                           le(q * r + A, l, "e = d*(e//d) + e%d")]
+                    ax.append(le(1, r, "assumed divisor >= 1"))
                     todo |= q.atoms()
             elif kind in ("min", "max"):
                 ps = info[1]
